@@ -182,7 +182,8 @@ Definition fment_wf (f : ltree -> bool) (e : entry ltree) : bool :=
 Definition fsent_wf (f : ltree -> bool) (e : ltree + (ltree * (bool * ltree))) : bool :=
   match e with
   | inl n => f n
-  | inr (k, (vt, v)) => f k && (vt || is_none v) && (is_none v || f v)   (* key not left out: see C03 finding *)
+  | inr (k, (vt, v)) => (is_none k || f k) && (vt || is_none v) && (is_none v || f v)
+      (* the key may be left out: `[ ? ]`, `[ ? : x ]` (FlowSequenceStart Key (Value x)? ...) *)
   end.
 Definition nonempty {A} (l : list A) : bool := match l with [] => false | _ => true end.
 
@@ -207,23 +208,62 @@ Definition wrap_events (es : bool) (evs : list event) : list event :=
 (* the root node of a document: anything well-formed in block context; left out only after "---" *)
 Definition wf_root (es : bool) (t : ltree) : bool := if is_none t then es else wf true false t.
 
-(* ---- the grammar without the restriction "key not left out" of unwrapped single pairs in flow sequences ----
-   ([wf] excludes `[ ? ]` / `[ ? : x ]`, token lists FlowSequenceStart Key (Value x)? ..., because of the recorded C03
-   finding explicit-key-indicator-without-key-in-flow-sequence; [wf_full] is what YAML 1.2 admits) *)
-Definition fsent_wf_full (f : ltree -> bool) (e : ltree + (ltree * (bool * ltree))) : bool :=
-  match e with
-  | inl n => f n
-  | inr (k, (vt, v)) => (is_none k || f k) && (vt || is_none v) && (is_none v || f v)
+(* ---- streams: several documents, %YAML / %TAG directives, any number of '...' markers ---- *)
+Inductive dirv := DVersion (maj mnr : N) | DTag (h pre : str).
+(* directives, '---' present?, root node, number of DocumentEnd tokens ('...') behind the document *)
+Record ldoc := { ld_dirs : list dirv; ld_start : bool; ld_root : ltree; ld_ends : nat }.
+
+Definition dir_tok (d : dirv) : tok :=
+  match d with DVersion a b => TVersionDirective a b | DTag h p => TTagDirective h p end.
+Definition doc_toks (d : ldoc) : list tok :=
+  map dir_tok (ld_dirs d) ++ flag (ld_start d) TDocumentStart ++ tokens_of (ld_root d) ++ repeat TDocumentEnd (ld_ends d).
+Definition stream_toks (ds : list ldoc) : list tok := TStreamStart :: flat_map doc_toks ds ++ [TStreamEnd].
+
+(* the handle table of a document: its own %TAG directives first, then (only if the parser was asked to keep tags
+   across documents) the table of the previous document *)
+Definition dir_tags (dirs : list dirv) : list (str * str) :=
+  flat_map (fun d => match d with DTag h p => [(h, p)] | DVersion _ _ => [] end) dirs.
+Definition doc_tags (keep : bool) (prev : list (str * str)) (d : ldoc) : list (str * str) :=
+  dir_tags (ld_dirs d) ++ (if keep then prev else []).
+
+(* at most one %YAML, no handle declared twice *)
+Fixpoint dirs_ok (seen : list str) (ver : bool) (dirs : list dirv) : bool :=
+  match dirs with
+  | [] => true
+  | DVersion _ _ :: r => negb ver && dirs_ok seen true r
+  | DTag h _ :: r => negb (existsb (str_eqb h) seen) && dirs_ok (h :: seen) ver r
   end.
-Fixpoint wf_full (b i : bool) (t : ltree) : bool :=
-  match t with
-  | LScalar _ _ _ | LAlias _ => true
-  | LNone => false
-  | LProps pr => has_some_props pr
-  | LBSeq _ items => b && forallb (fun x => is_none x || wf_full true false x) items
-  | LISeq _ items => b && i && nonempty items && forallb (fun x => is_none x || wf_full true false x) items
-  | LBMap _ ents => b && forallb (ent_wf (wf_full true true)) ents && adj_ok ents
-  | LFSeq _ ents trail => forallb (fsent_wf_full (wf_full false false)) ents && (negb trail || nonempty ents)
-  | LFMap _ ents trail => forallb (fment_wf (wf_full false false)) ents && (negb trail || nonempty ents)
+
+(* [closed]: the previous document was ended by '...' (or there is none).  Directives and documents without '---'
+   only there; directives need '---'; a left-out root node needs '---'. *)
+Fixpoint docs_wf (closed : bool) (ds : list ldoc) : bool :=
+  match ds with
+  | [] => true
+  | d :: r =>
+      dirs_ok [] false (ld_dirs d)
+      && (negb (nonempty (ld_dirs d)) || (closed && ld_start d))
+      && (ld_start d || closed)
+      && wf_root (ld_start d) (ld_root d)
+      && docs_wf (match ld_ends d with O => false | S _ => true end) r
   end.
-Definition wf_root_full (es : bool) (t : ltree) : bool := if is_none t then es else wf_full true false t.
+
+(* events: anchors are local to a document, the ids keep counting through the stream *)
+Definition doc_env (next : N) : aenv := {| ae_map := []; ae_next := next |}.
+Fixpoint docs_events (keep : bool) (prev : list (str * str)) (next : N) (ds : list ldoc) : list event :=
+  match ds with
+  | [] => []
+  | d :: r =>
+      let tg := doc_tags keep prev d in
+      EDocumentStart (ld_start d) :: number tg (doc_env next) (pre_events (ld_root d)) ++
+      EDocumentEnd :: docs_events keep tg (ae_next (env_after (doc_env next) (pre_events (ld_root d)))) r
+  end.
+Fixpoint docs_bound (keep : bool) (prev : list (str * str)) (next : N) (ds : list ldoc) : bool :=
+  match ds with
+  | [] => true
+  | d :: r =>
+      let tg := doc_tags keep prev d in
+      bound tg (doc_env next) (pre_events (ld_root d)) &&
+      docs_bound keep tg (ae_next (env_after (doc_env next) (pre_events (ld_root d)))) r
+  end.
+Definition stream_events (keep : bool) (ds : list ldoc) : list event :=
+  EStreamStart :: docs_events keep [] 1%N ds ++ [EStreamEnd].
